@@ -471,4 +471,69 @@ def checkHanded (hooks : List Hook) (path : Str) (uid : String) (got : Handed) :
     some "handed-to-a-hook-or-binding-that-did-not-register-this-path"
   else none
 
+/-! ## the binding context the hook process is started with, and `AllowFailure`
+
+The optional fields of a binding's configuration (`group`, `failurePolicy`, `sideEffects`,
+`timeoutSeconds`, selectors) are not named by the property: whatever they are, the request is handed
+to the hook as ONE admission context of the registering binding's kind with the review in it, and a
+failure anywhere is a denial. -/
+
+/-- the `type` `BindingContext.MapV1` gives the context of an admission binding -/
+def kindTypeName : Kind → String
+  | .validating => "Validating"
+  | .mutating => "Mutating"
+
+/-- The hand-over clause of C14 on one observed hook process, in full: the process started for the
+request `uid` (object `sentName`) sent to `path` found `n` binding contexts, the first one for
+`got.binding` of `got.hook` with `type` `typ`, the review's request uid `got.uid` and object name
+`gotName` (`null` = there is no such field). `none` = holds. -/
+def checkHandedCtx (hooks : List Hook) (path : Str) (uid sentName : String) (got : Handed)
+    (typ : String) (n : Nat) (gotName : String) : Option String :=
+  if n ≠ 1 then some "the-hook-process-did-not-get-exactly-one-binding-context"
+  else if typ ≠ kindTypeName got.binding.kind then
+    some "the-binding-context-is-not-an-admission-review-of-the-binding's-kind"
+  else match checkHanded hooks path uid got with
+    | some why => some why
+    | none =>
+      if gotName ≠ sentName then some "the-request-in-the-binding-context-is-not-the-request-sent"
+      else none
+
+/-- `taskHandleHookRun`: an error of `handleRunHook` ends the task with `Fail` — unless the task's
+`HookMetadata.AllowFailure` (copied from the `BindingExecutionInfo` that `HandleEvent` returned) is
+set: then it ends with `Success` -/
+def taskStatusFail (allowFailure : Bool) (o : Outcome) : Bool := taskFails o && !allowFailure
+
+/-- the closure of `initValidatingWebhookManager` with `AllowFailure` as a parameter (`HandleEvent`
+does not set it: `eventHandlerAF (fun _ _ => false) = eventHandler`). The `admissionResponse` prop
+is stored as the last step of `handleRunHook` (`taskProp`), so a task that "succeeds" because its
+failure is allowed has no prop. -/
+def eventHandlerAF (allowFailure : Nat → Binding → Bool) (hooks : List Hook) (run : Nat → Binding → Outcome)
+    (conf wid : Str) : EventRet × Option (Nat × Binding) :=
+  match route hooks conf wid with
+  | none => (.err .noHook, none)
+  | some (h, b) =>
+    let o := run h b
+    if taskStatusFail (allowFailure h b) o then (.hookFailed, some (h, b))
+    else match taskProp o with
+      | none => (.err .propError, some (h, b))
+      | some r => (.resp r, some (h, b))
+
+/-- does `HandleEvent` leave `AllowFailure` false in every `BindingExecutionInfo` it returns (not set,
+or the literal `false`)? Regenerated from the source on every run. -/
+def allowFailureNeverSet : Bool :=
+  !ShellOp.Facts.c14HandleEventAllowFailure.isEmpty &&
+    ShellOp.Facts.c14HandleEventAllowFailure.all (fun e => e == "false" || e == "<absent>")
+
+/-- is the `admissionResponse` prop stored after every step of `handleRunHook` that can return an
+error (no such statement follows the `SetProp`)? Regenerated from the source on every run. -/
+def propStoredLast : Bool := ShellOp.Facts.c14RunHookFailsAfterProp.isEmpty
+
+/-- Seeded variant (C14-w6m2, half A): the prop is stored right after the hook run, before the
+object patch / metric operations are applied -/
+def taskPropEarly (o : Outcome) : Option HookResp :=
+  if !o.exitZero || o.file == .malformed then none
+  else match o.file with
+    | .valid r => some r
+    | _ => none
+
 end ShellOp.Admission
